@@ -2,6 +2,7 @@ package main
 
 import (
 	"fmt"
+	"github.com/glowlabs-org/gca-backend/glow"
 	"sync"
 	"time"
 
@@ -179,9 +180,9 @@ func runConc(c *ctx) error {
 		if err := s.fresh("conc/pairs", 1000); err != nil {
 			return err
 		}
-		npairs := 150
+		npairs := 300
 		if c.tier == "thorough" {
-			npairs = 600
+			npairs = 1200
 		}
 		for i := 0; i < npairs; i++ {
 			d := e.addDevice()
@@ -190,20 +191,62 @@ func runConc(c *ctx) error {
 			start := make(chan struct{})
 			var wg sync.WaitGroup
 			wg.Add(2)
-			go func() { defer wg.Done(); <-start; e.Deliver(rep) }()
+			// the authorization travels through HTTP (a few hundred microseconds); the report is handed to the handler
+			// directly after a swept delay, so that the two critical sections meet in every alignment
+			delay := time.Duration(i%75) * 12 * time.Microsecond
 			go func() {
 				defer wg.Done()
 				<-start
-				for spin := 0; spin < (i%60)*300; spin++ {
-					_ = spin
+				for t0 := time.Now(); time.Since(t0) < delay; {
 				}
-				e.Authorize(banAuth)
+				e.Deliver(rep)
 			}()
+			go func() { defer wg.Done(); <-start; e.Authorize(banAuth) }()
 			close(start)
 			wg.Wait()
 		}
 		e.devs = nil
 		s.CheckInv()
+	}
+	// racing authorizations: two different GCA-signed authorizations for the same fresh id (and, every third time, two
+	// fresh ids with the same key) are posted at the same moment: the outcome is that of one of the two orders
+	if c.part("gaps") || c.only == "authpairs" {
+		if err := s.fresh("conc/authpairs", 1000); err != nil {
+			return err
+		}
+		nap := 120
+		if c.tier == "thorough" {
+			nap = 500
+		}
+		// replies of concurrent requests for one id cannot be matched to the lock order of their handlers: not recorded
+		s.NoResp = true
+		for i := 0; i < nap; i++ {
+			e.nextID += 2
+			id := e.nextID
+			var a1, a2 glow.EquipmentAuthorization
+			if i%3 == 2 {
+				a1 = e.BuildAuth(hx.AuthSpec{ID: id, Key: fmt.Sprintf("ap%d", id), Cap: 500, Signer: "gca"})
+				a2 = e.BuildAuth(hx.AuthSpec{ID: id + 1, Key: fmt.Sprintf("ap%d", id), Cap: 500, Signer: "gca"})
+			} else {
+				a1 = e.BuildAuth(hx.AuthSpec{ID: id, Key: fmt.Sprintf("ap%d", id), Cap: 500, Signer: "gca"})
+				a2 = e.BuildAuth(hx.AuthSpec{ID: id, Key: fmt.Sprintf("aq%d", id), Cap: 700, Signer: "gca"})
+			}
+			start := make(chan struct{})
+			var wg sync.WaitGroup
+			wg.Add(2)
+			go func() { defer wg.Done(); <-start; e.Authorize(a1) }()
+			go func() { defer wg.Done(); <-start; e.Authorize(a2) }()
+			close(start)
+			wg.Wait()
+			if i%20 == 19 {
+				s.CheckInv()
+			}
+		}
+		s.NoResp = false
+		s.CheckInv()
+		if err := s.Restart(); err != nil {
+			return err
+		}
 	}
 	// randomized many-goroutine workload
 	if c.part("random") {
